@@ -26,7 +26,10 @@
                     not be written to was closed                    (3a27dcb)
      fx_connread    read_answers(): connection kept alive while being read (eb0f53d)
      fx_qidearly    ares_send_nolock(): *qid = id before ares_send_query, not after
-                    (8caadf2)                                                             *)
+                    (8caadf2)
+     fx_cancelmark  ares_cancel(): the queries it has taken are marked; ares_query_complete()
+                    reports ARES_ECANCELLED for a marked query whatever ended it
+                    (fixes/C01-cancel-complete.patch)                                     *)
 From Coq Require Import List ZArith Lia Bool Arith.
 Import ListNotations.
 From CAres.Base Require Import Outcome.
@@ -39,13 +42,17 @@ Definition tok := nat.
 Definition EDESYNC : Z := (-2)%Z.      (* tape does not fit / inadmissible choice *)
 Definition EINTERNAL : Z := (-3)%Z.    (* model-internal inconsistency (never, see proofs) *)
 
-Record fixes := { fx_unlink : bool; fx_search : bool; fx_revalidate : bool; fx_connread : bool; fx_qidearly : bool }.
-Definition all_fixed := {| fx_unlink := true; fx_search := true; fx_revalidate := true; fx_connread := true; fx_qidearly := true |}.
-Definition pinned := {| fx_unlink := false; fx_search := false; fx_revalidate := false; fx_connread := false; fx_qidearly := false |}.
+Record fixes := { fx_unlink : bool; fx_search : bool; fx_revalidate : bool; fx_connread : bool; fx_qidearly : bool;
+  fx_cancelmark : bool }.
+Definition all_fixed := {| fx_unlink := true; fx_search := true; fx_revalidate := true; fx_connread := true; fx_qidearly := true;
+  fx_cancelmark := true |}.
+Definition pinned := {| fx_unlink := false; fx_search := false; fx_revalidate := false; fx_connread := false; fx_qidearly := false;
+  fx_cancelmark := false |}.
 
 Record config := {
   cf_fix : fixes;
-  cf_max_tries : nat;        (* number of servers * tries *)
+  cf_tries : nat;            (* channel->tries (per server) *)
+  cf_nservers : nat;         (* number of servers the channel is created with *)
   cf_igntc : bool;           (* ARES_FLAG_IGNTC *)
   cf_nocheckresp : bool;     (* ARES_FLAG_NOCHECKRESP *)
   cf_dns0x20 : bool          (* ARES_FLAG_DNS0x20 *)
@@ -76,7 +83,8 @@ Inductive tev :=
 | TG                                   (* server_set_good *)
 | TP (rc : Z) (nodes v4 v6 : bool)     (* ares_parse_into_addrinfo result; ai has nodes / an IPv4 / an IPv6 node afterwards *)
 | TR (rc : Z)                          (* ares_parse_ptr_reply_dnsrec *)
-| TK | TKE.                            (* ares_check_cleanup_conns entered / returned *)
+| TK | TKE                             (* ares_check_cleanup_conns entered / returned *)
+| TU (n : nat) | TUE.                  (* ares_servers_update entered (n servers in the new list) / returned *)
 
 (* result handed to a callback: status and, when a DNS record is passed, its rcode/ancount *)
 Record result := { r_status : Z; r_rec : option (nat * nat * nat) (* rcode, ancount, message id *) }.
@@ -101,35 +109,38 @@ Inductive cbk :=
 
 Record query := {
   q_qid : nat; q_cb : cbk; q_conn : option obj;
-  q_try : nat; q_noretry : bool; q_tcp : bool; q_err : Z
+  q_try : nat; q_noretry : bool; q_tcp : bool; q_err : Z;
+  q_cancelled : bool         (* taken by a running ares_cancel() *)
 }.
 Record conn := { c_sock : nat; c_tcp : bool; c_queries : list obj; c_reading : bool; c_closed : bool }.
 Record hostq := {
   h_cb : cbk; h_remaining : nat; h_names : list cand; h_cur_single : bool; h_family : nat (* 0 4 6 *);
   h_lookups : list bool; h_localhost : bool; h_nodes : bool; h_v4 : bool; h_nodata : nat;
-  h_qid_a : nat; h_qid_aaaa : nat
+  h_qid_a : nat; h_qid_aaaa : nat;
+  h_nomem : bool             (* 740940b: one of the lookups ran out of memory *)
 }.
 Definition mk_host k names family lookups localhost :=
   {| h_cb := k; h_remaining := 0; h_names := names; h_cur_single := false; h_family := family; h_lookups := lookups;
-     h_localhost := localhost; h_nodes := false; h_v4 := false; h_nodata := 0; h_qid_a := 0; h_qid_aaaa := 0 |}.
+     h_localhost := localhost; h_nodes := false; h_v4 := false; h_nodata := 0; h_qid_a := 0; h_qid_aaaa := 0;
+     h_nomem := false |}.
 Definition h_set_remaining n h := {| h_cb := h_cb h; h_remaining := n; h_names := h_names h; h_cur_single := h_cur_single h;
   h_family := h_family h; h_lookups := h_lookups h; h_localhost := h_localhost h; h_nodes := h_nodes h; h_v4 := h_v4 h;
-  h_nodata := h_nodata h; h_qid_a := h_qid_a h; h_qid_aaaa := h_qid_aaaa h |}.
+  h_nodata := h_nodata h; h_qid_a := h_qid_a h; h_qid_aaaa := h_qid_aaaa h; h_nomem := h_nomem h |}.
 Definition h_set_names l cs h := {| h_cb := h_cb h; h_remaining := h_remaining h; h_names := l; h_cur_single := cs;
   h_family := h_family h; h_lookups := h_lookups h; h_localhost := h_localhost h; h_nodes := h_nodes h; h_v4 := h_v4 h;
-  h_nodata := h_nodata h; h_qid_a := h_qid_a h; h_qid_aaaa := h_qid_aaaa h |}.
+  h_nodata := h_nodata h; h_qid_a := h_qid_a h; h_qid_aaaa := h_qid_aaaa h; h_nomem := h_nomem h |}.
 Definition h_set_lookups l h := {| h_cb := h_cb h; h_remaining := h_remaining h; h_names := h_names h; h_cur_single := h_cur_single h;
   h_family := h_family h; h_lookups := l; h_localhost := h_localhost h; h_nodes := h_nodes h; h_v4 := h_v4 h;
-  h_nodata := h_nodata h; h_qid_a := h_qid_a h; h_qid_aaaa := h_qid_aaaa h |}.
-Definition h_set_ai nodes v4 h := {| h_cb := h_cb h; h_remaining := h_remaining h; h_names := h_names h; h_cur_single := h_cur_single h;
+  h_nodata := h_nodata h; h_qid_a := h_qid_a h; h_qid_aaaa := h_qid_aaaa h; h_nomem := h_nomem h |}.
+Definition h_set_ai nodes v4 nm nd h := {| h_cb := h_cb h; h_remaining := h_remaining h; h_names := h_names h; h_cur_single := h_cur_single h;
   h_family := h_family h; h_lookups := h_lookups h; h_localhost := h_localhost h; h_nodes := nodes; h_v4 := v4;
-  h_nodata := h_nodata h; h_qid_a := h_qid_a h; h_qid_aaaa := h_qid_aaaa h |}.
+  h_nodata := nd; h_qid_a := h_qid_a h; h_qid_aaaa := h_qid_aaaa h; h_nomem := nm |}.
 Definition h_set_nodata n h := {| h_cb := h_cb h; h_remaining := h_remaining h; h_names := h_names h; h_cur_single := h_cur_single h;
   h_family := h_family h; h_lookups := h_lookups h; h_localhost := h_localhost h; h_nodes := h_nodes h; h_v4 := h_v4 h;
-  h_nodata := n; h_qid_a := h_qid_a h; h_qid_aaaa := h_qid_aaaa h |}.
+  h_nodata := n; h_qid_a := h_qid_a h; h_qid_aaaa := h_qid_aaaa h; h_nomem := h_nomem h |}.
 Definition h_set_qids a b h := {| h_cb := h_cb h; h_remaining := h_remaining h; h_names := h_names h; h_cur_single := h_cur_single h;
   h_family := h_family h; h_lookups := h_lookups h; h_localhost := h_localhost h; h_nodes := h_nodes h; h_v4 := h_v4 h;
-  h_nodata := h_nodata h; h_qid_a := a; h_qid_aaaa := b |}.
+  h_nodata := h_nodata h; h_qid_a := a; h_qid_aaaa := b; h_nomem := h_nomem h |}.
 Inductive cell := CQuery (q : query) | CConn (c : conn) | CHost (h : hostq) | COpaque.
 
 (* API calls a script can make (and the top-level inputs that submit requests) *)
@@ -144,6 +155,7 @@ Inductive call :=
 | AGai (t : tok) (names : list cand) (family : nat) (lookups : list bool) (localhost : bool)
 | AGhbn (t : tok) (names : list cand) (family : nat) (lookups : list bool) (localhost : bool)
 | ACancel
+| ASetServers                                     (* ares_set_servers*(), ares_reinit() reaching ares_servers_update() *)
 | ANop.                                           (* qlen, fds, tmo, ... *)
 
 Record state := {
@@ -157,7 +169,8 @@ Record state := {
   st_tape : list tev;
   st_scripts : list (tok * list call);
   st_trace : list event;          (* reversed *)
-  st_destroying : bool
+  st_destroying : bool;
+  st_nservers : nat               (* ares_slist_len(channel->servers) *)
 }.
 
 Definition M (A : Type) := state -> outcome (A * state).
@@ -176,31 +189,34 @@ Definition modify (f : state -> state) : M unit := fun s => Ok (tt, f s).
 
 Definition set_cells c s := {| st_next := st_next s; st_cells := c; st_freed := st_freed s; st_lists := st_lists s;
   st_byqid := st_byqid s; st_bytmo := st_bytmo s; st_conns := st_conns s; st_tape := st_tape s;
-  st_scripts := st_scripts s; st_trace := st_trace s; st_destroying := st_destroying s |}.
+  st_scripts := st_scripts s; st_trace := st_trace s; st_destroying := st_destroying s; st_nservers := st_nservers s |}.
 Definition set_lists l s := {| st_next := st_next s; st_cells := st_cells s; st_freed := st_freed s; st_lists := l;
   st_byqid := st_byqid s; st_bytmo := st_bytmo s; st_conns := st_conns s; st_tape := st_tape s;
-  st_scripts := st_scripts s; st_trace := st_trace s; st_destroying := st_destroying s |}.
+  st_scripts := st_scripts s; st_trace := st_trace s; st_destroying := st_destroying s; st_nservers := st_nservers s |}.
 Definition set_byqid l s := {| st_next := st_next s; st_cells := st_cells s; st_freed := st_freed s; st_lists := st_lists s;
   st_byqid := l; st_bytmo := st_bytmo s; st_conns := st_conns s; st_tape := st_tape s;
-  st_scripts := st_scripts s; st_trace := st_trace s; st_destroying := st_destroying s |}.
+  st_scripts := st_scripts s; st_trace := st_trace s; st_destroying := st_destroying s; st_nservers := st_nservers s |}.
 Definition set_bytmo l s := {| st_next := st_next s; st_cells := st_cells s; st_freed := st_freed s; st_lists := st_lists s;
   st_byqid := st_byqid s; st_bytmo := l; st_conns := st_conns s; st_tape := st_tape s;
-  st_scripts := st_scripts s; st_trace := st_trace s; st_destroying := st_destroying s |}.
+  st_scripts := st_scripts s; st_trace := st_trace s; st_destroying := st_destroying s; st_nservers := st_nservers s |}.
 Definition set_conns l s := {| st_next := st_next s; st_cells := st_cells s; st_freed := st_freed s; st_lists := st_lists s;
   st_byqid := st_byqid s; st_bytmo := st_bytmo s; st_conns := l; st_tape := st_tape s;
-  st_scripts := st_scripts s; st_trace := st_trace s; st_destroying := st_destroying s |}.
+  st_scripts := st_scripts s; st_trace := st_trace s; st_destroying := st_destroying s; st_nservers := st_nservers s |}.
 Definition set_tape l s := {| st_next := st_next s; st_cells := st_cells s; st_freed := st_freed s; st_lists := st_lists s;
   st_byqid := st_byqid s; st_bytmo := st_bytmo s; st_conns := st_conns s; st_tape := l;
-  st_scripts := st_scripts s; st_trace := st_trace s; st_destroying := st_destroying s |}.
+  st_scripts := st_scripts s; st_trace := st_trace s; st_destroying := st_destroying s; st_nservers := st_nservers s |}.
 Definition set_scripts l s := {| st_next := st_next s; st_cells := st_cells s; st_freed := st_freed s; st_lists := st_lists s;
   st_byqid := st_byqid s; st_bytmo := st_bytmo s; st_conns := st_conns s; st_tape := st_tape s;
-  st_scripts := l; st_trace := st_trace s; st_destroying := st_destroying s |}.
+  st_scripts := l; st_trace := st_trace s; st_destroying := st_destroying s; st_nservers := st_nservers s |}.
 Definition set_trace l s := {| st_next := st_next s; st_cells := st_cells s; st_freed := st_freed s; st_lists := st_lists s;
   st_byqid := st_byqid s; st_bytmo := st_bytmo s; st_conns := st_conns s; st_tape := st_tape s;
-  st_scripts := st_scripts s; st_trace := l; st_destroying := st_destroying s |}.
+  st_scripts := st_scripts s; st_trace := l; st_destroying := st_destroying s; st_nservers := st_nservers s |}.
+Definition set_nservers n s := {| st_next := st_next s; st_cells := st_cells s; st_freed := st_freed s; st_lists := st_lists s;
+  st_byqid := st_byqid s; st_bytmo := st_bytmo s; st_conns := st_conns s; st_tape := st_tape s;
+  st_scripts := st_scripts s; st_trace := st_trace s; st_destroying := st_destroying s; st_nservers := n |}.
 Definition set_destroying b s := {| st_next := st_next s; st_cells := st_cells s; st_freed := st_freed s; st_lists := st_lists s;
   st_byqid := st_byqid s; st_bytmo := st_bytmo s; st_conns := st_conns s; st_tape := st_tape s;
-  st_scripts := st_scripts s; st_trace := st_trace s; st_destroying := b |}.
+  st_scripts := st_scripts s; st_trace := st_trace s; st_destroying := b; st_nservers := st_nservers s |}.
 
 (* ---------------------------------------------------------------------------------- *)
 (* Heap                                                                                *)
@@ -216,7 +232,7 @@ Definition alloc (c : cell) : M obj := fun s =>
   let o := st_next s in
   Ok (o, {| st_next := S o; st_cells := (o, c) :: st_cells s; st_freed := st_freed s; st_lists := st_lists s;
             st_byqid := st_byqid s; st_bytmo := st_bytmo s; st_conns := st_conns s; st_tape := st_tape s;
-            st_scripts := st_scripts s; st_trace := st_trace s; st_destroying := st_destroying s |}).
+            st_scripts := st_scripts s; st_trace := st_trace s; st_destroying := st_destroying s; st_nservers := st_nservers s |}).
 
 (* every C access through a pointer to object o *)
 Definition touch (o : obj) : M cell := fun s =>
@@ -229,7 +245,7 @@ Definition free_obj (o : obj) : M unit := fun s =>
        | Some _ => Ok (tt, {| st_next := st_next s; st_cells := remove_key o (st_cells s); st_freed := o :: st_freed s;
                               st_lists := st_lists s; st_byqid := st_byqid s; st_bytmo := st_bytmo s; st_conns := st_conns s;
                               st_tape := st_tape s; st_scripts := st_scripts s; st_trace := st_trace s;
-                              st_destroying := st_destroying s |})
+                              st_destroying := st_destroying s; st_nservers := st_nservers s |})
        | None => Err EINTERNAL end.
 
 Definition store (o : obj) (c : cell) : M unit :=
@@ -242,12 +258,13 @@ Definition get_conn (o : obj) : M conn :=
 Definition get_host (o : obj) : M hostq :=
   let! c := touch o in match c with CHost q => ret q | _ => fail EINTERNAL end.
 
-Definition set_q_cb k q := {| q_qid := q_qid q; q_cb := k; q_conn := q_conn q; q_try := q_try q; q_noretry := q_noretry q; q_tcp := q_tcp q; q_err := q_err q |}.
-Definition set_q_conn c q := {| q_qid := q_qid q; q_cb := q_cb q; q_conn := c; q_try := q_try q; q_noretry := q_noretry q; q_tcp := q_tcp q; q_err := q_err q |}.
-Definition set_q_try n q := {| q_qid := q_qid q; q_cb := q_cb q; q_conn := q_conn q; q_try := n; q_noretry := q_noretry q; q_tcp := q_tcp q; q_err := q_err q |}.
-Definition set_q_noretry b q := {| q_qid := q_qid q; q_cb := q_cb q; q_conn := q_conn q; q_try := q_try q; q_noretry := b; q_tcp := q_tcp q; q_err := q_err q |}.
-Definition set_q_tcp b q := {| q_qid := q_qid q; q_cb := q_cb q; q_conn := q_conn q; q_try := q_try q; q_noretry := q_noretry q; q_tcp := b; q_err := q_err q |}.
-Definition set_q_err e q := {| q_qid := q_qid q; q_cb := q_cb q; q_conn := q_conn q; q_try := q_try q; q_noretry := q_noretry q; q_tcp := q_tcp q; q_err := e |}.
+Definition set_q_cb k q := {| q_qid := q_qid q; q_cb := k; q_conn := q_conn q; q_try := q_try q; q_noretry := q_noretry q; q_tcp := q_tcp q; q_err := q_err q; q_cancelled := q_cancelled q |}.
+Definition set_q_conn c q := {| q_qid := q_qid q; q_cb := q_cb q; q_conn := c; q_try := q_try q; q_noretry := q_noretry q; q_tcp := q_tcp q; q_err := q_err q; q_cancelled := q_cancelled q |}.
+Definition set_q_try n q := {| q_qid := q_qid q; q_cb := q_cb q; q_conn := q_conn q; q_try := n; q_noretry := q_noretry q; q_tcp := q_tcp q; q_err := q_err q; q_cancelled := q_cancelled q |}.
+Definition set_q_noretry b q := {| q_qid := q_qid q; q_cb := q_cb q; q_conn := q_conn q; q_try := q_try q; q_noretry := b; q_tcp := q_tcp q; q_err := q_err q; q_cancelled := q_cancelled q |}.
+Definition set_q_tcp b q := {| q_qid := q_qid q; q_cb := q_cb q; q_conn := q_conn q; q_try := q_try q; q_noretry := q_noretry q; q_tcp := b; q_err := q_err q; q_cancelled := q_cancelled q |}.
+Definition set_q_err e q := {| q_qid := q_qid q; q_cb := q_cb q; q_conn := q_conn q; q_try := q_try q; q_noretry := q_noretry q; q_tcp := q_tcp q; q_err := e; q_cancelled := q_cancelled q |}.
+Definition set_q_cancelled b q := {| q_qid := q_qid q; q_cb := q_cb q; q_conn := q_conn q; q_try := q_try q; q_noretry := q_noretry q; q_tcp := q_tcp q; q_err := q_err q; q_cancelled := b |}.
 Definition set_c_queries l c := {| c_sock := c_sock c; c_tcp := c_tcp c; c_queries := l; c_reading := c_reading c; c_closed := c_closed c |}.
 Definition set_c_reading b c := {| c_sock := c_sock c; c_tcp := c_tcp c; c_queries := c_queries c; c_reading := b; c_closed := c_closed c |}.
 Definition set_c_closed b c := {| c_sock := c_sock c; c_tcp := c_tcp c; c_queries := c_queries c; c_reading := c_reading c; c_closed := b |}.
@@ -272,6 +289,21 @@ Fixpoint find_tmr (t : list tev) : option (Z * bool) :=
 (* the query a timeout is about: the first write attempt or end_query that follows *)
 Fixpoint timeout_victim (t : list tev) : option nat :=
   match t with [] => None | TW q _ _ :: _ => Some q | TE q _ :: _ => Some q | _ :: r => timeout_victim r end.
+
+(* ares_servers_update removing a server: which connection ares_close_sockets() closes next.  A
+   connection with queries first re-queues its first query (TW: sent again, TE: ended; possibly
+   after failed attempts to open a connection), an idle one is closed right away *)
+Inductive victim := VEnd | VSock (sock : nat) | VQid (qid : nat).
+Fixpoint close_victim (t : list tev) : option victim :=
+  match t with
+  | TUE :: _ => Some VEnd
+  | TCL s :: _ => Some (VSock s)
+  | TW q _ _ :: _ => Some (VQid q)
+  | TE q _ :: _ => Some (VQid q)
+  | TO _ :: r => close_victim r
+  | TS :: r => close_victim r
+  | _ => None
+  end.
 
 (* ares_dns_query_reply_tostatus (a switch: outside the subset of gen/c2gallina.py, hand-modelled) *)
 (* ares_probe_failed_server decided to probe: a query id is drawn (possibly several times, when
@@ -355,6 +387,13 @@ Definition write_qid (qd : option (obj * bool)) (qid : nat) : M unit :=
       store o (CHost (if aaaa then h_set_qids (h_qid_a h) qid h else h_set_qids qid (h_qid_aaaa h) h))
   end.
 
+(* ares_cancel marking the queries it has taken (no callback runs in between) *)
+Fixpoint mark_cancelled (l : list obj) : M unit :=
+  match l with
+  | [] => ret tt
+  | qo :: r => (let! q := get_query qo in store qo (CQuery (set_q_cancelled true q))) ;; mark_cancelled r
+  end.
+
 Section Run.
 Variable cf : config.
 Let fx := cf_fix cf.
@@ -424,6 +463,7 @@ with api (fuel : nat) (c : call) {struct fuel} : M unit :=
   match c with
   | ANop => ret tt
   | ACancel => cancel f
+  | ASetServers => emit EvSetServers ;; set_servers f
   | ASync t st => emit (EvReq t) ;; invoke f (KUser t) (res st)
   | ASend t => emit (EvReq t) ;; let! _ := send_nolock f (KUser t) false None in ret tt
   | ASendRaw t =>
@@ -473,6 +513,8 @@ with query_nolock (fuel : nat) (k : cbk) (qd : option (obj * bool)) {struct fuel
 with send_nolock (fuel : nat) (k : cbk) (probe : bool) (qd : option (obj * bool)) {struct fuel} : M Z :=
   match fuel with O => fail OutOfFuel | S f =>
   let! qid := gen_qid 8 in
+  let! s0 := get in
+  if Nat.eqb (st_nservers s0) 0 then invoke f k (res ARES_ENOSERVER) ;; ret ARES_ENOSERVER else
   let! cached :=
      (if probe then ret None
       else let! e := pop in
@@ -493,7 +535,7 @@ with send_nolock (fuel : nat) (k : cbk) (probe : bool) (qd : option (obj * bool)
       else
         (if cf_dns0x20 cf then (let! e := peek in match e with Some (TN _) => let! _ := pop in ret tt | _ => ret tt end) else ret tt) ;;
         let! qo := alloc (CQuery {| q_qid := qid; q_cb := k; q_conn := None; q_try := 0; q_noretry := probe;
-                                    q_tcp := false; q_err := ARES_SUCCESS |}) in
+                                    q_tcp := false; q_err := ARES_SUCCESS; q_cancelled := false |}) in
         link_all qo ;;
         modify (fun s => set_byqid ((qid, qo) :: st_byqid s) s) ;;
         (if fx_qidearly fx then write_qid qd qid else ret tt) ;;
@@ -507,6 +549,8 @@ with send_nolock (fuel : nat) (k : cbk) (probe : bool) (qd : option (obj * bool)
 with send_query (fuel : nat) (qo : obj) {struct fuel} : M Z :=
   match fuel with O => fail OutOfFuel | S f =>
   let! q := get_query qo in
+  let! s0 := get in
+  if Nat.eqb (st_nservers s0) 0 then end_query f qo ARES_ENOSERVER (res ARES_ENOSERVER) ;; ret ARES_ENOSERVER else
   let! e := peek in
   match e with
   | Some (TO rc) =>
@@ -568,7 +612,8 @@ with requeue_query (fuel : nat) (qo : obj) (st : Z) (inc : bool) (defer : bool) 
   let q := if zeqb st ARES_SUCCESS then q else set_q_err st q in
   let q := if inc then set_q_try (S (q_try q)) q else q in
   store qo (CQuery q) ;;
-  if Nat.ltb (q_try q) (cf_max_tries cf) && negb (q_noretry q) then
+  let! s := get in
+  if Nat.ltb (q_try q) (st_nservers s * cf_tries cf) && negb (q_noretry q) then
     if defer then ret ARES_SUCCESS   (* ares_append_requeue: the caller records the qid *)
     else send_query f qo
   else
@@ -594,7 +639,8 @@ with complete_query (fuel : nat) (qo : obj) (r : result) {struct fuel} : M unit 
   if fx_unlink fx then
     detach_query qo ;;
     let! q := get_query qo in
-    invoke f (q_cb q) r ;;
+    (* a query taken by ares_cancel() completes as cancelled whatever ended it *)
+    invoke f (q_cb q) (if q_cancelled q then res ARES_ECANCELLED else r) ;;
     release_query qo
   else
     let! q := get_query qo in
@@ -660,6 +706,39 @@ with cleanup_loop (fuel : nat) (n : nat) {struct fuel} : M unit :=
   | _ => fail EDESYNC end
   end end
 
+(* ares_servers_update (ares_set_servers*, ares_reinit): the servers that are not in the new list
+   are destroyed, which closes their connections; the tape says which ones, in which order *)
+with set_servers (fuel : nat) {struct fuel} : M unit :=
+  match fuel with O => fail OutOfFuel | S f =>
+  let! e := pop in
+  match e with
+  | TU n => modify (set_nservers n) ;; set_servers_loop f f
+  | _ => fail EDESYNC end
+  end
+
+with set_servers_loop (fuel : nat) (n : nat) {struct fuel} : M unit :=
+  match fuel with O => fail OutOfFuel | S f =>
+  match n with O => fail OutOfFuel | S n' =>
+  let! s := get in
+  match close_victim (st_tape s) with
+  | Some VEnd => let! _ := pop in ret tt
+  | Some (VSock sock) =>
+      let! oc := find_conn_by_sock sock in
+      match oc with
+      | Some co => close_connection f co ARES_SUCCESS ;; set_servers_loop f n'
+      | None => fail EDESYNC end
+  | Some (VQid qid) =>
+      match lookup qid (st_byqid s) with
+      | Some qo =>
+          let! q := get_query qo in
+          match q_conn q with
+          | Some co => if memb co (st_conns s) then close_connection f co ARES_SUCCESS ;; set_servers_loop f n'
+                       else fail EDESYNC
+          | None => fail EDESYNC end
+      | None => fail EDESYNC end
+  | None => fail EDESYNC
+  end end end
+
 (* ares_cancel *)
 with cancel (fuel : nat) {struct fuel} : M unit :=
   match fuel with O => fail OutOfFuel | S f =>
@@ -667,6 +746,7 @@ with cancel (fuel : nat) {struct fuel} : M unit :=
   (match st_lists s with
    | (_ :: _) as l :: rest =>
        modify (set_lists ([] :: l :: rest)) ;;
+       (if fx_cancelmark fx then mark_cancelled l else ret tt) ;;
        (if fx_unlink fx then cancel_loop_fixed f f else cancel_loop_pinned f l) ;;
        (* ares_llist_destroy(list_copy) *)
        modify (fun s => set_lists (match st_lists s with a :: _ :: r => a :: r | x => x end) s)
@@ -742,7 +822,8 @@ with search_callback (fuel : nat) (o : obj) (k : cbk) (cur_single : bool) (lft :
         let! (st, skip) := search_next f o k lft nodata' in
         if negb (zeqb st ARES_SUCCESS) && negb skip then end_squery f o k (res st) else ret tt
     | [] =>
-        if zeqb mystatus ARES_ENOTFOUND && nodata' then end_squery f o k (res ARES_ENODATA)
+        (* 39c371c: ENODATA seen along the way wins over the status of the last name *)
+        if nodata' then end_squery f o k (res ARES_ENODATA)
         else end_squery f o k (res mystatus)
     end
   end
@@ -833,7 +914,11 @@ with host_callback (fuel : nat) (o : obj) (r : result) {struct fuel} : M unit :=
         | _ => fail EDESYNC end
       else ret (ARES_SUCCESS, h_nodes h, h_v4 h)) in
   let! h := get_host o in
-  store o (CHost (h_set_ai nodes v4 h)) ;;
+  (* hquery->ai as left by the parser; hquery->nomem (740940b) *)
+  let nm := h_nomem h || zeqb st ARES_ENOMEM || zeqb ais ARES_ENOMEM in
+  (* 3eb5c71: a no-data answer is remembered also when it is not the last of the pair *)
+  let nd := if negb (Nat.eqb rem 0) && (zeqb st ARES_ENODATA || zeqb ais ARES_ENODATA) then S (h_nodata h) else h_nodata h in
+  store o (CHost (h_set_ai nodes v4 nm nd h)) ;;
   (* terminate_retries: the other query of this lookup, found by its id, no longer retries *)
   (if zeqb st ARES_SUCCESS && zeqb ais ARES_SUCCESS && v4 && negb (Nat.eqb rem 0) then
      let id := match r_rec r with Some (_, _, id) => id | None => 0 end in
@@ -845,6 +930,7 @@ with host_callback (fuel : nat) (o : obj) (r : result) {struct fuel} : M unit :=
    else ret tt) ;;
   if negb (Nat.eqb rem 0) then ret tt
   else if zeqb st ARES_EDESTRUCTION || zeqb st ARES_ECANCELLED then end_hquery f o st
+  else if nm then end_hquery f o ARES_ENOMEM
   else if negb (zeqb ais ARES_SUCCESS) && negb (zeqb ais ARES_ENODATA) then
     (if zeqb ais ARES_EBADRESP && nodes then end_hquery f o ARES_SUCCESS else end_hquery f o ais)
   else if nodes then end_hquery f o ARES_SUCCESS
@@ -1090,9 +1176,10 @@ Inductive input :=
 | IProc (writes reads : list nat)          (* ares_process_fds with these socket events *)
 | IDestroy.                                (* ares_destroy *)
 
-Definition init_state : state :=
+Definition init_state (cf : config) : state :=
   {| st_next := 1; st_cells := []; st_freed := []; st_lists := [[]]; st_byqid := []; st_bytmo := [];
-     st_conns := []; st_tape := []; st_scripts := []; st_trace := []; st_destroying := false |}.
+     st_conns := []; st_tape := []; st_scripts := []; st_trace := []; st_destroying := false;
+     st_nservers := cf_nservers cf |}.
 
 Definition delivered (t : tok) (s : state) : bool :=
   existsb (fun e => match e with EvCb t' _ => Nat.eqb t t' | _ => false end) (st_trace s).
@@ -1129,7 +1216,7 @@ Fixpoint run_from (cf : config) (fuel : nat) (h : list (input * list tev)) : M b
 Definition run (cf : config) (fuel : nat) (h : list (input * list tev)) (final : list tev) : outcome (list event) :=
   match (let! destroyed := run_from cf fuel h in
          (if destroyed then ret tt else step cf fuel IDestroy final) ;;
-         emit EvEnd) init_state with
+         emit EvEnd) (init_state cf) with
   | Ok (_, s) => Ok (rev (st_trace s))
   | Err e => Err e
   | UB k => UB k
